@@ -169,6 +169,36 @@ func (s reqSpec) obs() reqObs {
 	return o
 }
 
+// scribbleReq writes to the maps of the request an attempt was handed (never to a nil map)
+func scribbleReq(r *proxy.Request, slot int) {
+	junk := fmt.Sprintf("junk-%d", slot)
+	if r.Headers != nil {
+		for k, vs := range r.Headers {
+			if len(vs) > 0 {
+				vs[0] = junk // in place: the value slices must be private too
+			}
+			r.Headers[k] = append(vs, junk)
+		}
+		r.Headers["X-Verif-Junk"] = []string{junk}
+	}
+	if r.Params != nil {
+		for k, v := range r.Params {
+			r.Params[k] = v + "-" + junk
+		}
+		r.Params["VerifJunk"] = junk
+	}
+}
+
+// observeMaps: everything but the body (which is left alone)
+func observeMaps(r *proxy.Request) reqObs {
+	b := r.Body
+	r.Body = nil
+	o := observe(r)
+	r.Body = b
+	o.nilBody = b == nil
+	return o
+}
+
 func observe(r *proxy.Request) reqObs {
 	o := reqObs{method: r.Method, path: r.Path, query: map[string][]string{}, params: map[string]string{}, headers: map[string][]string{}}
 	if r.URL != nil {
@@ -330,11 +360,46 @@ type observation struct {
 	started int
 	hang    string // non-empty: a watchdog fired (what did not happen)
 	skipped bool
+	caller  *reqObs // scribble runs: the caller's own request after the call (maps only)
 }
 
 type runCfg struct {
 	watchdog time.Duration
 	timeout  time.Duration
+	inst     *instance // nil: a fresh middleware instance for this run
+	scribble bool      // attempts record one after the other, each then writes junk into ITS request
+}
+
+// instance: ONE middleware instance serving many calls (instance-reuse streams).  The
+// backend stub of a call is found through the parameter runParam of the request, which the
+// harness adds to the request of every call made through a shared instance.
+const runParam = "verif-run"
+
+type instance struct {
+	n     int
+	p     proxy.Proxy
+	stubs sync.Map // run id -> proxy.Proxy
+}
+
+func newInstance(n int, timeout time.Duration) *instance {
+	in := &instance{n: n}
+	in.p = proxy.NewConcurrentMiddlewareWithLogger(logging.NoOp, &config.Backend{ConcurrentCalls: n, Timeout: timeout})(
+		func(ctx context.Context, r *proxy.Request) (*proxy.Response, error) {
+			if f, ok := in.stubs.Load(r.Params[runParam]); ok {
+				return f.(proxy.Proxy)(ctx, r)
+			}
+			return nil, errors.New("attempt carries a request of no known call")
+		})
+	return in
+}
+
+func withRun(rs reqSpec, id string) reqSpec {
+	ps := map[string]string{runParam: id}
+	for k, v := range rs.params {
+		ps[k] = v
+	}
+	rs.params = ps
+	return rs
 }
 
 // runOnce drives the middleware once. tainted: the budget's deadline passed before the
@@ -355,11 +420,24 @@ func runOnce(n int, kinds []int, order []int, parentAfter int, rs reqSpec, nonce
 	seen := map[int]reqObs{}
 	var deadline atomic.Value // time.Time
 	var wg sync.WaitGroup
+	baton := make(chan struct{}, 1)
+	baton <- struct{}{}
+	callerReq := rs.build()
 	next := func(ctx context.Context, r *proxy.Request) (*proxy.Response, error) {
 		wg.Add(1)
 		defer wg.Done()
 		i := <-slot
-		o := observe(r)
+		var o reqObs
+		if rc.scribble {
+			// one attempt at a time: record what was handed over (consuming the body), then
+			// write to the request's own maps, as a request modifier below the middleware may
+			<-baton
+			o = observe(r)
+			scribbleReq(r, i)
+			baton <- struct{}{}
+		} else {
+			o = observe(r)
+		}
 		if d, ok := ctx.Deadline(); ok {
 			deadline.Store(d)
 		}
@@ -388,7 +466,14 @@ func runOnce(n int, kinds []int, order []int, parentAfter int, rs reqSpec, nonce
 	}
 	deq := make(chan struct{}, 4*maxSlots)
 	curDeq.Store(deq)
-	p := proxy.NewConcurrentMiddlewareWithLogger(logging.NoOp, &config.Backend{ConcurrentCalls: n, Timeout: rc.timeout})(next)
+	var p proxy.Proxy
+	if rc.inst != nil {
+		rc.inst.stubs.Store(nonce, proxy.Proxy(next))
+		defer rc.inst.stubs.Delete(nonce)
+		p = rc.inst.p
+	} else {
+		p = proxy.NewConcurrentMiddlewareWithLogger(logging.NoOp, &config.Backend{ConcurrentCalls: n, Timeout: rc.timeout})(next)
+	}
 	parent, cancelParent := context.WithCancel(context.Background())
 	defer cancelParent()
 	type res struct {
@@ -397,7 +482,7 @@ func runOnce(n int, kinds []int, order []int, parentAfter int, rs reqSpec, nonce
 	}
 	done := make(chan res, 1)
 	go func() {
-		r, e := p(parent, rs.build())
+		r, e := p(parent, callerReq)
 		done <- res{r, e}
 	}()
 	wd := time.NewTimer(rc.watchdog)
@@ -474,6 +559,11 @@ func runOnce(n int, kinds []int, order []int, parentAfter int, rs reqSpec, nonce
 		}
 	}
 	obs.resp, obs.err = o.r, o.e
+	if rc.scribble {
+		// every attempt has returned: the caller's request must be what it was
+		c := observeMaps(callerReq)
+		obs.caller = &c
+	}
 	ids := make([]int, 0, len(seen))
 	for i := range seen {
 		ids = append(ids, i)
@@ -485,8 +575,94 @@ func runOnce(n int, kinds []int, order []int, parentAfter int, rs reqSpec, nonce
 	return obs, tainted
 }
 
+// runFree: one call through a shared instance whose attempts answer at once (no gates, the
+// arrival order is whatever the scheduler makes it); used by the concurrent-reuse stream.
+func runFree(inst *instance, kinds []int, rs reqSpec, nonce string) (obs observation) {
+	n := len(kinds)
+	slot := make(chan int, n+8)
+	for i := 0; i < n+8; i++ {
+		slot <- i
+	}
+	started := make(chan int, n+8)
+	var mu sync.Mutex
+	seen := map[int]reqObs{}
+	var wg sync.WaitGroup
+	stub := func(ctx context.Context, r *proxy.Request) (*proxy.Response, error) {
+		wg.Add(1)
+		defer wg.Done()
+		i := <-slot
+		o := observe(r)
+		mu.Lock()
+		seen[i] = o
+		mu.Unlock()
+		started <- i
+		if i >= n {
+			return nil, errors.New("attempt beyond the configured number")
+		}
+		switch kinds[i] {
+		case kComplete:
+			return &proxy.Response{Data: map[string]interface{}{"who": i, "nonce": nonce}, IsComplete: true}, nil
+		case kIncomplete:
+			return &proxy.Response{Data: map[string]interface{}{"who": i, "nonce": nonce}, IsComplete: false}, nil
+		case kError:
+			return nil, tagErr{i, nonce}
+		}
+		return nil, nil
+	}
+	inst.stubs.Store(nonce, proxy.Proxy(stub))
+	defer inst.stubs.Delete(nonce)
+	type res struct {
+		r *proxy.Response
+		e error
+	}
+	done := make(chan res, 1)
+	parent, cancelParent := context.WithCancel(context.Background())
+	defer cancelParent()
+	go func() {
+		r, e := inst.p(parent, rs.build())
+		done <- res{r, e}
+	}()
+	wd := time.NewTimer(90 * time.Second)
+	defer wd.Stop()
+	select {
+	case o := <-done:
+		obs.resp, obs.err = o.r, o.e
+	case <-wd.C:
+		obs.hang = "the middleware did not return"
+		cancelParent()
+		o := <-done
+		obs.resp, obs.err = o.r, o.e
+	}
+	for obs.started < n && obs.hang == "" {
+		select {
+		case <-started:
+			obs.started++
+		case <-wd.C:
+			obs.hang = fmt.Sprintf("only %d of %d attempts started", obs.started, n)
+		}
+	}
+	wg.Wait()
+	for more := true; more; {
+		select {
+		case <-started:
+			obs.started++
+		default:
+			more = false
+		}
+	}
+	ids := make([]int, 0, len(seen))
+	for i := range seen {
+		ids = append(ids, i)
+	}
+	sort.Ints(ids)
+	for _, i := range ids {
+		obs.seen = append(obs.seen, seen[i])
+	}
+	return obs
+}
+
 // run with validation: repeat tainted runs with longer budgets; confirm watchdog hits once
-func runScenario(n int, kinds []int, order []int, parentAfter int, rs reqSpec, nonce string, stats map[string]int) observation {
+func runScenario(inst *instance, scribble bool, n int, kinds []int, order []int, parentAfter int, rs reqSpec, nonce string, stats map[string]int) observation {
 	hasSilent := false
 	for _, k := range kinds {
 		if k == kSilent {
@@ -504,7 +680,7 @@ func runScenario(n int, kinds []int, order []int, parentAfter int, rs reqSpec, n
 		if hasSilent {
 			wdog += timeout // such runs legitimately last as long as the budget
 		}
-		obs, tainted := runOnce(n, kinds, order, parentAfter, rs, nonce, runCfg{watchdog: wdog, timeout: timeout})
+		obs, tainted := runOnce(n, kinds, order, parentAfter, rs, nonce, runCfg{watchdog: wdog, timeout: timeout, inst: inst, scribble: scribble})
 		if obs.hang != "" {
 			// a watchdog is only believed when it fires twice, the second time after a minute
 			hangs++
@@ -597,24 +773,9 @@ func main() {
 	reqCounter := 0
 	aborted := false
 
-	emitCase := func(stream string, n int, kinds []int, order []int, parentAfter int, ri int) {
-		if aborted {
-			return
-		}
-		rs := cat[ri%len(cat)]
-		nonce := fmt.Sprintf("c%d", w.N())
-		obs := runScenario(n, kinds, order, parentAfter, rs, nonce, stats)
-		if stats["watchdog_confirmed"] >= 2 {
-			aborted = true
-		}
-		if obs.skipped {
-			w.Count("skipped:budget-too-short-for-this-machine")
-			w.Add(emit.App("CSkipped", emit.Str("release phase not finished within the budget after 6 attempts")),
-				map[string]interface{}{"stream": stream, "n": n, "kinds": kinds, "order": order, "skipped": true},
-				"", fmt.Sprintf("skipped|%d|%v|%v|%d|%s", n, kinds, order, parentAfter, rs.name), false)
-			return
-		}
-		// observed result
+	// render: the Gallina term and the human form of one observed run; proj: the part of the
+	// observation that is the same for every run of the same input without interference
+	render := func(stream string, free bool, n int, kinds []int, order []int, parentAfter int, rs reqSpec, nonce string, obs observation) (term string, js map[string]interface{}, proj string) {
 		respCoq, respJS := "None", interface{}(nil)
 		if obs.resp != nil {
 			id := 9999
@@ -623,31 +784,37 @@ func main() {
 			}
 			respCoq = emit.Some(emit.App("mkResp", emit.N(uint64(id)), emit.Bool(obs.resp.IsComplete)))
 			respJS = map[string]interface{}{"id": id, "complete": obs.resp.IsComplete}
+			proj = fmt.Sprintf("resp(%d,%v)", id, obs.resp.IsComplete)
 		}
 		errCoq, errJS := "None", interface{}(nil)
 		if obs.hang != "" {
 			errCoq = emit.Some(emit.App("EOther", emit.Str("harness watchdog: "+obs.hang)))
 			errJS = "harness watchdog: " + obs.hang
+			proj += "|hang"
 		} else if obs.err != nil {
 			var te tagErr
 			switch {
 			case errors.As(obs.err, &te) && te.nonce == nonce:
 				errCoq = emit.Some(emit.App("EAttempt", emit.N(uint64(te.slot))))
+				proj += "|EAttempt"
 			case obs.err == proxy.VerifErrNullResult:
 				errCoq = emit.Some("ENull")
+				proj += "|ENull"
 			case errors.Is(obs.err, context.DeadlineExceeded):
 				errCoq = emit.Some("EDeadline")
+				proj += "|EDeadline"
 			case errors.Is(obs.err, context.Canceled):
 				errCoq = emit.Some("ECanceled")
+				proj += "|ECanceled"
 			default:
 				errCoq = emit.Some(emit.App("EOther", emit.Str(obs.err.Error())))
+				proj += "|other:" + obs.err.Error()
 			}
 			errJS = obs.err.Error()
 		}
 		ks := make([]string, len(kinds))
 		for i, k := range kinds {
 			ks[i] = kindNames[k]
-			w.Count("kind:" + kindNames[k])
 		}
 		parentCoq := "None"
 		if parentAfter >= 0 {
@@ -659,21 +826,32 @@ func main() {
 		inCoq := in.coq()
 		seenCoq := make([]string, len(obs.seen))
 		seenJS := make([]interface{}, len(obs.seen))
+		same := 0
 		for i, s := range obs.seen {
 			seenCoq[i] = s.coq()
 			if seenCoq[i] == inCoq {
 				seenCoq[i] = "rq"
+				same++
 			}
 			seenJS[i] = s.js()
 		}
-		term := "(let rq := " + inCoq + " in " + emit.App("CRun", emit.Nat(n), emit.List(ks), emit.NatList(order), parentCoq, "rq", emit.List(seenCoq), emit.Pair(respCoq, errCoq)) + ")"
-		js := map[string]interface{}{
+		proj += fmt.Sprintf("|seen=%d/%d", same, len(obs.seen))
+		if free {
+			term = "(let rq := " + inCoq + " in " + emit.App("CFree", emit.Nat(n), emit.List(ks), "rq", emit.List(seenCoq), emit.Pair(respCoq, errCoq)) + ")"
+		} else {
+			term = "(let rq := " + inCoq + " in " + emit.App("CRun", emit.Nat(n), emit.List(ks), emit.NatList(order), parentCoq, "rq", emit.List(seenCoq), emit.Pair(respCoq, errCoq)) + ")"
+		}
+		js = map[string]interface{}{
 			"stream": stream, "n": n, "kinds": ks, "order": order, "parent_cancelled_after": parentAfter,
-			"request": in.js(), "request_variant": rs.name,
+			"request": in.js(), "request_variant": rs.name, "order_imposed": !free,
 			"observed": map[string]interface{}{"response": respJS, "error": errJS, "attempts_started": obs.started, "seen": seenJS},
 		}
+		return term, js, proj
+	}
+	count := func(stream string, n int, kinds []int, rs reqSpec, obs observation) bool {
 		nontrivial := false
 		for _, k := range kinds {
+			w.Count("kind:" + kindNames[k])
 			if k != kComplete {
 				nontrivial = true
 			}
@@ -693,8 +871,45 @@ func main() {
 			w.Count("result:nil,nil")
 		}
 		w.Count("request:" + rs.name[:strings.Index(rs.name, "/")])
-		canon := fmt.Sprintf("%d|%v|%v|%d|%s", n, kinds, order, parentAfter, rs.name)
+		return nontrivial
+	}
+
+	scribble := false
+	emitOn := func(inst *instance, stream string, n int, kinds []int, order []int, parentAfter int, ri int) {
+		if aborted {
+			return
+		}
+		rs := cat[ri%len(cat)]
+		nonce := fmt.Sprintf("c%d", w.N())
+		if inst != nil {
+			rs = withRun(rs, nonce)
+		}
+		obs := runScenario(inst, scribble, n, kinds, order, parentAfter, rs, nonce, stats)
+		if stats["watchdog_confirmed"] >= 2 {
+			aborted = true
+		}
+		if obs.skipped {
+			w.Count("skipped:budget-too-short-for-this-machine")
+			w.Add(emit.App("CSkipped", emit.Str("release phase not finished within the budget after 6 attempts")),
+				map[string]interface{}{"stream": stream, "n": n, "kinds": kinds, "order": order, "skipped": true},
+				"", fmt.Sprintf("skipped|%d|%v|%v|%d|%s", n, kinds, order, parentAfter, rs.name), false)
+			return
+		}
+		term, js, _ := render(stream, false, n, kinds, order, parentAfter, rs, nonce, obs)
+		nontrivial := count(stream, n, kinds, rs, obs)
+		canon := fmt.Sprintf("%s|%d|%v|%v|%d|%s", stream, n, kinds, order, parentAfter, rs.name)
 		w.Add(term, js, "", canon, nontrivial)
+		if obs.caller != nil {
+			in := rs.obs()
+			w.Count("stream:" + stream + "-caller")
+			w.Add(emit.App("CCaller", in.coq(), obs.caller.coq()),
+				map[string]interface{}{"stream": stream + "-caller", "n": n, "request": in.js(), "request_variant": rs.name,
+					"observed": map[string]interface{}{"caller_request_after_call": obs.caller.js()}},
+				"", "caller|"+canon, true)
+		}
+	}
+	emitCase := func(stream string, n int, kinds []int, order []int, parentAfter int, ri int) {
+		emitOn(nil, stream, n, kinds, order, parentAfter, ri)
 	}
 	nextReq := func() int { reqCounter++; return reqCounter - 1 }
 
@@ -722,6 +937,37 @@ func main() {
 	for _, c := range corpus {
 		emitCase("corpus", len(c.kinds), c.kinds, c.order, c.parent, nextReq())
 	}
+
+	// ---- instance reuse, sequential: ONE middleware instance serves a sequence of calls that
+	// differ in outcomes, arrival order and request (state kept from one call to the next -
+	// a response, an error, a message left in a channel, a body - shows in the next step) ----
+	type step struct {
+		kinds  []int
+		order  []int
+		parent int
+	}
+	runSequence := func(stream string, n int, steps []step) {
+		inst := newInstance(n, 30*time.Second)
+		for _, st := range steps {
+			emitOn(inst, stream, n, st.kinds, st.order, st.parent, nextReq())
+		}
+	}
+	runSequence("reuse-seq-corpus", 2, []step{
+		{[]int{kComplete, kIncomplete}, []int{0, 1}, -1},   // returns early: the incomplete answer stays behind
+		{[]int{kEmpty, kEmpty}, []int{0, 1}, -1},           // must be (nil, invalid response): no response of the call before
+		{[]int{kIncomplete, kError}, []int{0, 1}, -1},      // incomplete + error
+		{[]int{kComplete, kError}, []int{1, 0}, -1},        // complete: no error of this or the earlier call
+		{[]int{kIncomplete, kIncomplete}, []int{1, 0}, -1}, // no error must survive from step 3
+		{[]int{kError, kError}, []int{0, 1}, -1},           // no response must survive from step 5
+	})
+	runSequence("reuse-seq-corpus", 3, []step{
+		{[]int{kIncomplete, kError, kComplete}, []int{0, 1, 2}, -1},
+		{[]int{kError, kEmpty, kError}, []int{0, 1, 2}, -1},
+		{[]int{kComplete, kComplete, kComplete}, []int{2, 1, 0}, -1}, // two complete answers stay behind
+		{[]int{kIncomplete, kIncomplete, kIncomplete}, []int{1, 2, 0}, -1},
+		{[]int{kEmpty, kIncomplete, kError}, []int{0, 1, 2}, 1}, // parent done after one message
+		{[]int{kError, kIncomplete, kEmpty}, []int{1, 0, 2}, -1},
+	})
 
 	// ---- exhaustive small scope: every outcome vector x every arrival order ----
 	maxN := 3
@@ -796,6 +1042,143 @@ func main() {
 		emitCase("parent-done-random", n, ks, ord, r.Intn(n), nextReq())
 	}
 
+	// ---- instance reuse, sequential, random sequences ----
+	nseq := 60
+	if cfg.Thorough() {
+		nseq = 400
+	}
+	for i := 0; i < nseq; i++ {
+		n := 2 + r.Intn(3)
+		var steps []step
+		for j, m := 0, 3+r.Intn(4); j < m; j++ {
+			ks, ord := randomScenario(n, 4)
+			par := -1
+			if r.Chance(1, 6) {
+				par = r.Intn(n)
+			}
+			steps = append(steps, step{ks, ord, par})
+		}
+		runSequence("reuse-seq-random", n, steps)
+	}
+
+	// ---- instance reuse, concurrent: ONE instance called from 12 goroutines at the same time;
+	// the attempts answer at once (order not imposed), the inputs are chosen so that the
+	// compared part of the result does not depend on the order; every distinct
+	// (input, observation) pair is emitted once ----
+	if !aborted {
+		curDeq.Store(make(chan struct{})) // the dequeue hook cannot be attributed here: ignored
+		inputs := []struct {
+			kinds []int
+			ri    int
+		}{
+			{[]int{kComplete, kError, kError}, 3},
+			{[]int{kIncomplete, kError, kError}, 11},
+			{[]int{kEmpty, kEmpty, kEmpty}, 20},
+			{[]int{kError, kError, kError}, 34},
+			{[]int{kIncomplete, kEmpty, kEmpty}, 47},
+			{[]int{kComplete, kIncomplete, kEmpty}, 58},
+		}
+		iters := 40
+		if cfg.Thorough() {
+			iters = 150
+		}
+		inst := newInstance(3, 30*time.Second)
+		type found struct {
+			term string
+			js   map[string]interface{}
+			obs  observation
+			rs   reqSpec
+		}
+		var fmu sync.Mutex
+		distinct := map[string]found{}
+		startGate := make(chan struct{})
+		var wg sync.WaitGroup
+		for g := 0; g < 12; g++ {
+			wg.Add(1)
+			go func(g int) {
+				defer wg.Done()
+				<-startGate
+				for it := 0; it < iters; it++ {
+					ii := (g + it) % len(inputs)
+					in := inputs[ii]
+					nonce := fmt.Sprintf("f%d-%d-%d", ii, g, it)
+					rs := withRun(cat[in.ri%len(cat)], nonce)
+					obs := runFree(inst, in.kinds, rs, nonce)
+					term, js, proj := render("reuse-concurrent", true, 3, in.kinds, []int{0, 1, 2}, -1, rs, nonce, obs)
+					key := fmt.Sprintf("%02d|%s", ii, proj)
+					fmu.Lock()
+					if _, ok := distinct[key]; !ok {
+						distinct[key] = found{term, js, obs, rs}
+					}
+					fmu.Unlock()
+				}
+			}(g)
+		}
+		close(startGate)
+		wg.Wait()
+		keys := make([]string, 0, len(distinct))
+		for k := range distinct {
+			keys = append(keys, k)
+		}
+		sort.Strings(keys)
+		for _, k := range keys {
+			f := distinct[k]
+			var ii int
+			fmt.Sscanf(k, "%02d|", &ii)
+			nontrivial := count("reuse-concurrent", 3, inputs[ii].kinds, f.rs, f.obs)
+			w.Add(f.term, f.js, "", "reuse-concurrent|"+k, nontrivial)
+		}
+		w.Meta["reuse_concurrent_calls"] = 12 * iters
+		w.Meta["reuse_concurrent_distinct"] = len(keys)
+	}
+
+	// ---- scribbling attempts: every attempt records the request it was handed (one attempt at
+	// a time), then writes junk into the Headers and Params maps of ITS request; the later
+	// attempts must still be handed the original request and the caller's request must be
+	// untouched afterwards.  Body-less and with-body variants with non-empty maps ----
+	{
+		big := make([]byte, 64*1024)
+		for i := range big {
+			big[i] = byte(i*7 + 3)
+		}
+		var vars []int
+		for _, shape := range []reqSpec{
+			{name: "post", method: "POST", url: "http://example.com:8080/b/42?q=1", path: "/b/{{.Id}}",
+				query:   url.Values{"q": {"1"}},
+				params:  map[string]string{"Id": "42", "Tenant": "acme"},
+				headers: map[string][]string{"Accept": {"application/json"}, "X-Multi": {"a", "b"}, "X-None": {}}},
+			{name: "patch", method: "DELETE", url: "http://h/x", path: "/x",
+				params:  map[string]string{"K": ""},
+				headers: map[string][]string{"Cookie": {"a=b; c=d"}}},
+		} {
+			for _, b := range []struct {
+				name string
+				b    []byte
+				nilB bool
+			}{{"nil", nil, true}, {"empty", []byte{}, false}, {"text", []byte(`{"a":1}`), false}, {"64KiB", big, false}} {
+				x := shape
+				x.name = shape.name + "/" + b.name + "/scribble"
+				x.body, x.nilBody = b.b, b.nilB
+				cat = append(cat, x)
+				vars = append(vars, len(cat)-1)
+			}
+		}
+		scribble = true
+		for _, ri := range vars {
+			for n := 2; n <= 4; n++ {
+				reps := 1
+				if cfg.Thorough() {
+					reps = 6
+				}
+				for k := 0; k < reps; k++ {
+					ks, ord := randomScenario(n, 4)
+					emitCase("scribble", n, ks, ord, -1, ri)
+				}
+			}
+		}
+		scribble = false
+	}
+
 	// ---- every request variant of the catalogue, N = 2..4 ----
 	for ri := range cat {
 		for n := 2; n <= 4; n++ {
@@ -812,5 +1195,5 @@ func main() {
 	}
 	w.Meta["request_catalogue"] = len(cat)
 	w.Meta["aborted_after_confirmed_watchdogs"] = aborted
-	w.Close(fmt.Sprintf("corpus; every outcome vector over {complete, incomplete, error, empty, silent}^N x every arrival order of the non-silent attempts for N=2..%d (silent attempts answer when the budget expires); parent context cancelled after k dequeues for N=2..3 (quick: a third of N=3); random N=4 (quick) and N=5..9; %d request variants (method/url/path/query/params/headers x 10 bodies incl. nil, empty, binary, 64 KiB, 200 KiB x 3 reader behaviours) assigned round-robin to all scenarios; nontrivial = not all attempts complete", maxN, len(cat)), true)
+	w.Close(fmt.Sprintf("corpus; every outcome vector over {complete, incomplete, error, empty, silent}^N x every arrival order of the non-silent attempts for N=2..%d (silent attempts answer when the budget expires); parent context cancelled after k dequeues for N=2..3 (quick: a third of N=3); random N=4 (quick) and N=5..9; scribbling attempts (each writes junk into the maps of its own request after recording it; 8 request variants incl. body-less, caller's request compared afterwards); instance reuse: one middleware instance serving sequences of 3-6 calls with different outcomes/orders/requests (2 corpus sequences + random ones) and 12 goroutines calling one instance at the same time (distinct (input, observation) pairs); %d request variants (method/url/path/query/params/headers x 10 bodies incl. nil, empty, binary, 64 KiB, 200 KiB x 3 reader behaviours) assigned round-robin to all scenarios; nontrivial = not all attempts complete", maxN, len(cat)), true)
 }
